@@ -11,6 +11,7 @@ import datetime
 import functools
 import itertools
 import logging
+import re
 import textwrap
 import time
 import warnings
@@ -176,7 +177,11 @@ def format_time_units_for_ems(units: str, calendar: str | None = DEFAULT_CALENDA
     "days since 1990-01-01 00:00:00 +10:00"
     """
     period, date_string = cftime._datesplit(units)
-    time_bits = cftime._parse_date(date_string.strip())
+    # cftime silently ignores a UTC offset with a one digit hour, such as `+8` or `-3:30`
+    date_string = re.sub(
+        r'(:\d{1,2}(?:\.\d+)?\s*[+-])(\d)(?=(:\d\d)?$)', r'\g<1>0\2', date_string.strip())
+    units = f'{period} since {date_string}'
+    time_bits = cftime._parse_date(date_string)
     offset_total = time_bits[-1]
     tzinfo = pytz.FixedOffset(offset_total)
 
